@@ -15,6 +15,20 @@ from typing import Any, Dict, List, Optional
 ALWAYS_NULL_TYPES = {"00000073-0000-1000-8000-0026BB765291"}
 
 
+def from_pyhap(ex: BaseException) -> bool:
+    """True if the exception was raised by / passed through the implementation under check (a
+    frame inside the pyhap package): then it is an observation about pyhap, not a harness bug."""
+    import os
+
+    tb = ex.__traceback__
+    while tb is not None:
+        fn = tb.tb_frame.f_code.co_filename.replace(os.sep, "/")
+        if "/pyhap/" in fn:
+            return True
+        tb = tb.tb_next
+    return False
+
+
 class GetterBoom(Exception):
     pass
 
@@ -59,15 +73,16 @@ class Rig:
 
         self.RigAccessory = RigAccessory
         self.loop = asyncio.new_event_loop()
-        if Rig._loader is None or Rig._loader_cls is not Loader:
-            Rig._loader, Rig._loader_cls = Loader(), Loader
+        # one loader per driver, as an application has it -- and a fresh one per rig, so that nothing
+        # one history does to loader-level state can leak into the next history
+        self.loader = Loader()
         self.driver = ad.AccessoryDriver(
             loop=self.loop,
             address="127.0.0.1",
             persist_file="/nonexistent-dir/verif-accessory.state",
             mac="AA:BB:CC:DD:EE:FF",
             pincode=b"031-45-154",
-            loader=Rig._loader,
+            loader=self.loader,
         )
         self.driver.persist = lambda: None  # no file system traffic
         self.driver.aio_stop_event = asyncio.Event()
@@ -92,9 +107,6 @@ class Rig:
         self.driver.http_server.push_event = lambda data, client, immediate=False: (
             self.pushed.append((dict(data), client)) or True
         )
-
-    _loader = None
-    _loader_cls = None
 
     def close(self):
         try:
